@@ -429,6 +429,22 @@ pub fn compare_restore(
             step,
         );
     }
+    for (q, restored) in &info.queue_resources {
+        let expected = reference.queue_resources.get(q);
+        if expected != restored.as_ref() {
+            fnd(
+                out,
+                "C10",
+                "restored-queue-worker-resources",
+                if restored.is_none() { "forgotten" } else { "different" },
+                format!(
+                    "allocation queue {q}: the journal records that its workers have {:?}, the restored queue knows {:?}",
+                    expected, restored
+                ),
+                step,
+            );
+        }
+    }
     if let Some(uid) = &reference.server_uid
         && *uid != info.server_uid
     {
@@ -525,6 +541,7 @@ pub struct RestartSummary {
     /// pending task -> (remaining deps, next instance id, crash count)
     pub pending: BTreeMap<TaskKey, (Vec<TaskKey>, u32, u32)>,
     pub queues: BTreeSet<u32>,
+    pub queue_resources: BTreeMap<u32, Option<String>>,
 }
 
 pub fn restart_summary(world: &World) -> RestartSummary {
@@ -533,6 +550,7 @@ pub fn restart_summary(world: &World) -> RestartSummary {
         jobs: BTreeMap::new(),
         pending: BTreeMap::new(),
         queues: BTreeSet::new(),
+        queue_resources: BTreeMap::new(),
     };
     if let Some(p) = &world.dead {
         s.outcome = format!("panic at {}", p.location());
@@ -544,6 +562,7 @@ pub fn restart_summary(world: &World) -> RestartSummary {
             return s;
         }
         s.queues = info.queues.iter().copied().collect();
+        s.queue_resources = info.queue_resources.iter().cloned().collect();
     }
     let Some(inc) = &world.inc else { return s };
     let state = inc.state_ref.get();
@@ -636,7 +655,13 @@ pub fn check_prune(world: &World, step: u64, out: &mut Vec<Finding>) -> bool {
             "queues"
         } else {
             // which component of the pending tasks differs
-            let mut k = "pending-details";
+            // (a difference only in what the queues know about their workers comes last: it
+            // is a known finding and must not hide a difference in the pending tasks)
+            let mut k = if a.pending == b.pending {
+                "queue-worker-resources"
+            } else {
+                "pending-details"
+            };
             for (t, (da, ia, ca)) in &a.pending {
                 if let Some((db, ib, cb)) = b.pending.get(t) {
                     if da != db {
@@ -698,6 +723,12 @@ fn diff_summaries(a: &RestartSummary, b: &RestartSummary) -> String {
         if !a.pending.contains_key(t) {
             parts.push(format!("pending task {t:?} only after the prune"));
         }
+    }
+    if a.queue_resources != b.queue_resources {
+        parts.push(format!(
+            "worker resources known to the queues {:?} vs {:?}",
+            a.queue_resources, b.queue_resources
+        ));
     }
     if a.queues != b.queues {
         parts.push(format!("queues {:?} vs {:?}", a.queues, b.queues));
@@ -890,7 +921,9 @@ pub fn check_prune_batched(
         return Some(false);
     }
     let wb = restart_from(world, &tp_bytes, "prune_e");
-    let b = restart_summary(&wb);
+    let mut b = restart_summary(&wb);
+    // (what the queues know about their workers is judged on the real journal)
+    b.queue_resources = a.queue_resources.clone();
     if a != b {
         let detail = diff_summaries(&a, &b);
         fnd(
